@@ -114,6 +114,27 @@ func (r *KeyRing) AddKey(key api.KeyDescription) (int, error) {
 	return newKey.Seqnum, nil
 }
 
+// AddCurrentKey appends a key to the key ring and makes it the current key in one transaction:
+// either both changes are stored or, if the key ring has been modified concurrently, none.
+func (r *KeyRing) AddCurrentKey(key api.KeyDescription) (int, error) {
+	newKey, err := r.newKey(key)
+	if err != nil {
+		r.log.WithError(err).Debug("failed to make new key")
+		return asn1.NoKey, err
+	}
+	r.pushTX(&txAddKey{newKey})
+	r.pushTX(&txSetKeyCurrent{r.data.Current, newKey.Seqnum})
+	err = r.store.syncKeyRing(r)
+	if err != nil {
+		r.popTX()
+		r.popTX()
+		r.log.WithError(err).Debug("failed to add new current key")
+		return asn1.NoKey, err
+	}
+	r.log.WithField("seqnum", newKey.Seqnum).Trace("new current key added to key ring")
+	return newKey.Seqnum, nil
+}
+
 //
 // Key data encryption
 //
